@@ -161,7 +161,7 @@ func (r *Runtime) ResetSteps() {
 // load — shares the enclosing budget rather than silently refilling it.
 func (r *Runtime) beginEval() func() {
 	r.evalDepth++
-	verifEv(r.Stack, "begin", r.evalDepth, 0, "", "")
+	verifEv(r.Stack, "begin", r.evalDepth, 0, verifPkg(r), "")
 	if r.evalDepth == 1 {
 		r.totalSteps += r.steps
 		r.steps = 0
